@@ -58,10 +58,10 @@ class UniformReservoirStorage(ReservoirStorage):
                 self._storage_y.append(y)
         else:
             if self._algo_l_counter == self.stored_samples:
-                self._algo_l_counter += (np.floor(
-                    np.log(random.random()) / np.log(1 - self._algo_wt)) + 1)
                 rand_idx = random.randrange(self.size)
                 self._storage_x[rand_idx] = x
                 if self.store_targets:
                     self._storage_y[rand_idx] = y
                 self._algo_wt *= np.exp(np.log(random.random()) / self.size)
+                self._algo_l_counter += (np.floor(
+                    np.log(random.random()) / np.log(1 - self._algo_wt)) + 1)
